@@ -25,12 +25,19 @@ type diagTpl struct {
 	Top  string            // body templates: extra top-level items placed before fn main
 	Mods map[string]string // further modules (marked text allowed: hint targets in other files)
 	Msg  string            // regexp selecting the error diagnostic
-	Rel  string            // eq | within | whole
+	// Rel: eq | within | whole | nested. nested = the reported range lies within the culprit «…», or it
+	// contains the culprit and lies within the enclosing construct ⟦…⟧ (a diagnostic may underline the
+	// whole statement around its culprit; a range next to the culprit points at an innocent construct)
+	Rel  string
 	Hint string            // regexp selecting the hint (optional)
 	// HintIn names the module holding the ‹…› markers (default: the culprit module)
 	HintIn  string
 	HintRel string // eq | within (default within)
 	Tags    []string
+	// Level of the selected diagnostic: "" = error, "warning" (analyzer and optimizer warnings)
+	Level string `json:",omitempty"`
+	// Gen: member of a generated family (families.go): thinned layout product in the quick tier
+	Gen bool `json:",omitempty"`
 }
 
 var diagTemplates = []diagTpl{
@@ -156,6 +163,12 @@ func findDiagTpl(name string) *diagTpl {
 			return &diagTemplates[i]
 		}
 	}
+	for _, t := range append(append([]diagTpl{}, familyTemplates()...), heldOutTemplates()...) {
+		if t.Name == name {
+			t := t
+			return &t
+		}
+	}
 	return nil
 }
 
@@ -163,12 +176,28 @@ func diagCases(tier string, seed uint64) []fw.Case {
 	var cases []fw.Case
 	r := fw.NewRng(seed ^ 0xC08D)
 	kfSingleton := fw.KFOpen("KF-c08-singleton-ident-span")
-	for _, t := range diagTemplates {
+	all := append(append([]diagTpl{}, diagTemplates...), familyTemplates()...)
+	if fw.KFOpen(heldOutKF) {
+		all = append(all, heldOutTemplates()...)
+	}
+	rg := fw.NewRng(seed ^ 0xC08F)
+	for _, t := range all {
 		poison := kfSingleton && hasTag(t.Tags, "singleton-ident")
+		// generated families, quick tier: plain layout + 2 seeded (layout, variant) picks per template
+		pick := map[int]bool{0: true}
+		if t.Gen && tier != "thorough" {
+			for k := 0; k < 2; k++ {
+				pick[rg.Intn(len(diagLayouts))*4+rg.Intn(4)] = true
+			}
+		}
 		for li, lay := range diagLayouts {
 			for v := 0; v < 4; v++ {
 				pre, cont := v&1 == 1, v&2 == 2
-				if tier != "thorough" && li > 0 && v > 0 && !r.Chance(1, 2) {
+				if t.Gen {
+					if tier != "thorough" && !pick[li*4+v] {
+						continue
+					}
+				} else if tier != "thorough" && li > 0 && v > 0 && !r.Chance(1, 2) {
 					continue
 				}
 				if poison && (li > 1 || v > 1) {
@@ -193,26 +222,43 @@ func hasTag(tags []string, t string) bool {
 	return false
 }
 
-// parseMarks strips «» ‹› and returns the ranges (To < From: empty range / no marker: ok=false).
-func parseMarks(marked string) (plain string, culprit, hint rng, hasC, hasH bool) {
+// marks are the marked ranges of one module text.
+type marks struct {
+	culprit, hint, outer rng
+	hasC, hasH, hasO     bool
+}
+
+// parseMarks3 strips «» ‹› ⟦⟧ and returns the ranges.
+func parseMarks3(marked string) (plain string, mk marks) {
 	var out []rune
 	for _, c := range []rune(marked) {
 		switch c {
 		case '«':
-			culprit.From = len(out)
+			mk.culprit.From = len(out)
 		case '»':
-			culprit.To = len(out) - 1
-			hasC = true
+			mk.culprit.To = len(out) - 1
+			mk.hasC = true
 		case '‹':
-			hint.From = len(out)
+			mk.hint.From = len(out)
 		case '›':
-			hint.To = len(out) - 1
-			hasH = true
+			mk.hint.To = len(out) - 1
+			mk.hasH = true
+		case '⟦':
+			mk.outer.From = len(out)
+		case '⟧':
+			mk.outer.To = len(out) - 1
+			mk.hasO = true
 		default:
 			out = append(out, c)
 		}
 	}
-	return string(out), culprit, hint, hasC, hasH
+	return string(out), mk
+}
+
+// parseMarks strips the markers and returns the culprit and hint ranges (To < From: empty range / no marker: ok=false).
+func parseMarks(marked string) (plain string, culprit, hint rng, hasC, hasH bool) {
+	plain, mk := parseMarks3(marked)
+	return plain, mk.culprit, mk.hint, mk.hasC, mk.hasH
 }
 
 const unicodePre = "let _u = \"äöü✓日本語🎉\"; "
@@ -262,24 +308,30 @@ func runDiag(c fw.Case) fw.Result {
 	}
 	marked, file := buildDiag(t, p)
 	src := drive.Sources{}
-	var culprit, hint rng
-	var hasC, hasH bool
+	var culprit, hint, outer rng
+	var hasC, hasH, hasO bool
 	hintFile := file
 	if t.HintIn != "" {
 		hintFile = t.HintIn
 	}
 	for _, k := range drive.SortedKeys(marked) {
-		plain, cr, hr, hc, hh := parseMarks(marked[k])
+		plain, mk := parseMarks3(marked[k])
 		src[k] = plain
-		if k == file && hc {
-			culprit, hasC = cr, true
+		if k == file && mk.hasC {
+			culprit, hasC = mk.culprit, true
 		}
-		if k == hintFile && hh {
-			hint, hasH = hr, true
+		if k == file && mk.hasO {
+			outer, hasO = mk.outer, true
+		}
+		if k == hintFile && mk.hasH {
+			hint, hasH = mk.hint, true
 		}
 	}
 	if !hasH {
 		hint = culprit
+	}
+	if !hasO {
+		outer = rng{0, len([]rune(src[file]))}
 	}
 	if !hasC && t.Rel != "whole" {
 		return fw.Result{Verdict: fw.Inconclusive, Why: "template without culprit markers: " + t.Name}
@@ -301,6 +353,18 @@ func runDiag(c fw.Case) fw.Result {
 	for _, e := range ao.Syntax {
 		m.syntaxError(e)
 	}
+	// an accepted program goes through the optimizer pass next (cmd/main.go): its diagnostics are
+	// reported and rendered like the analyzer's
+	optDiags, optPanic := optimizerDiags(ao)
+	if optPanic != "" {
+		return fw.Result{Verdict: fw.Inconclusive, Why: "optimizer panicked (C05/C19): " + optPanic}
+	}
+	ao.Diags = append(append([]diagnostic.Diagnostic{}, ao.Diags...), optDiags...)
+	m.obs["optimizer_diagnostics"] += int64(len(optDiags))
+	wantLevel := diagnostic.DiagnosticLevelError
+	if t.Level == "warning" {
+		wantLevel = diagnostic.DiagnosticLevelWarning
+	}
 	reMsg := regexp.MustCompile(t.Msg)
 	var reHint *regexp.Regexp
 	if t.Hint != "" {
@@ -309,7 +373,7 @@ func runDiag(c fw.Case) fw.Result {
 	matched, hintMatched := 0, 0
 	for i, d := range ao.Diags {
 		st := m.diag(d)
-		if d.Level != diagnostic.DiagnosticLevelError || !reMsg.MatchString(d.Message) {
+		if d.Level != wantLevel || !reMsg.MatchString(d.Message) {
 			continue
 		}
 		// several error diagnostics may match a loose pattern: each must lie in the culprit
@@ -337,11 +401,21 @@ func runDiag(c fw.Case) fw.Result {
 		case st.Inside:
 			got := spanRange(d.Span)
 			ok := got == culprit
-			if t.Rel == "within" {
+			switch t.Rel {
+			case "within":
 				ok = within(got, culprit)
+			case "nested":
+				ok = within(got, culprit) || (within(culprit, got) && within(got, outer))
 			}
 			if !ok {
-				m.fail("diag:outside-culprit:"+class, fmt.Sprintf("%q reported at %s = runes %v %q, culprit (%s) is %v %q", d.Message, fmtSpan(d.Span), got, runesOf(src[file], got), t.Rel, culprit, runesOf(src[file], culprit)), nil)
+				why := fmt.Sprintf("%q reported at %s = runes %v %q, culprit (%s) is %v %q", d.Message, fmtSpan(d.Span), got, runesOf(src[file], got), t.Rel, culprit, runesOf(src[file], culprit))
+				if t.Rel == "nested" {
+					why += fmt.Sprintf(": the reported range neither lies within the culprit nor is it a range around the culprit inside the enclosing construct %v", outer)
+					if got.To < culprit.From || got.From > culprit.To {
+						why += " (it marks a different construct next to the culprit)"
+					}
+				}
+				m.fail(levelName(d.Level)+":outside-culprit:"+class, why, nil)
 			}
 		case st.Whole:
 			m.fail("diag:whole-file-for-located-fault:"+class, fmt.Sprintf("%q carries the whole-file position although the culprit is %v", d.Message, culprit), nil)
@@ -388,7 +462,13 @@ func runDiag(c fw.Case) fw.Result {
 		}
 	}
 	res.Cover = append(res.Cover, "tpl:"+t.Name, "layout:"+p.Layout, "diag-mode:"+mode)
-	if p.Cont && p.Pre && p.Layout == "unicode-comment" {
+	if t.Level != "" {
+		res.Cover = append(res.Cover, "diag-level:"+t.Level)
+	}
+	if len(optDiags) > 0 {
+		res.Cover = append(res.Cover, "optimizer-diagnostics")
+	}
+	if p.Cont && p.Pre && p.Layout == "unicode-comment" && !t.Gen {
 		res.Sample = map[string]any{"kind": "diag", "template": t.Name, "mode": mode, "module": file, "text": src[file], "culprit": runesOf(src[file], culprit), "diagnostics": util.Clip(ao.ErrorSummary(), 300)}
 	}
 	return res
